@@ -14,11 +14,15 @@
 (***************************************************************************)
 EXTENDS Integers, Sequences, FiniteSets
 
-Units == {"NO_UNIT", "METER", "LITER", "CUBIC_METER", "CUP", "KILOGRAM"}
+\* EVERY value of the enum traits.Consumable.Unit, in enum order (the harness reports the enum's names and
+\* VendingTrace refuses to judge if this list is not exactly that set).  UNIT_UNSPECIFIED is what a quantity
+\* carries when the unit was left out, NO_UNIT counts items.
+UnitOrder == <<"UNIT_UNSPECIFIED", "NO_UNIT", "METER", "LITER", "CUBIC_METER", "CUP", "KILOGRAM">>
+Units == { UnitOrder[k] : k \in 1..Len(UnitOrder) }
 Cat(u) == CASE u \in {"LITER", "CUBIC_METER", "CUP"} -> "volume"
             [] u = "METER" -> "length"
             [] u = "KILOGRAM" -> "weight"
-            [] OTHER -> "none:" \o u        \* NO_UNIT converts only to itself
+            [] OTHER -> "none:" \o u        \* UNIT_UNSPECIFIED and NO_UNIT have no category: each converts only to itself
 \* size of one unit in litres, for the exactly convertible volume units
 Litres(u) == IF u = "CUBIC_METER" THEN 1000 ELSE 1
 Exact(from, to) == from = to \/ Cat(from) # Cat(to) \/ {from, to} \subseteq {"LITER", "CUBIC_METER"}
